@@ -343,10 +343,13 @@ impl CatalogPersistence {
                     existing_schema.add_table(table.clone());
                 }
             } else {
-                bail!(
-                    "schema '{}' not found in catalog during deserialization",
-                    schema.name()
-                );
+                // a user-created schema: re-create it before adding its tables
+                catalog.create_schema(schema.name())?;
+                if let Some(created) = catalog.get_schema_mut(schema.name()) {
+                    for table in schema.tables().values() {
+                        created.add_table(table.clone());
+                    }
+                }
             }
         }
 
